@@ -8,14 +8,15 @@
     features(**overrides) -> feature dict;   op_counts(module) -> {op name: n};   render(module) -> str
 
 Recipe grammar (plain JSON; every integer is free: `build` reduces it modulo what is available)
-    recipe = {"funcs": [func, ...], "inputs": [int, ...]}
+    recipe = {"funcs": [func, ...], "inputs": [int, ...], "ib": 32|64 (width of index constants, default 64)}
     func   = {"args": [T...], "body": [stmt...], "ret": [[T, ref]...],
               "term": term, "blocks": [{"args": [T...], "body": [stmt...], "term": term,
                                          "loop": null | {"n": bound, "next": [ref...]}}...]}   (cf part optional)
     T      = "i1" | "i8" | "i16" | "i32" | "i64" | "iN" | "index" | "f32" | "f64" | "memref<NxT>"
-    ref    = int: index modulo the number of VISIBLE values OF THE REQUIRED TYPE (results of earlier ops of the
-             block, block/function arguments, enclosing blocks, and -- in a non-entry CFG block -- the entry
-             block); if there is none a boundary constant of that type is materialised.  So every recipe builds.
+    ref    = int: index modulo the number of VISIBLE values OF THE REQUIRED TYPE, counted BACKWARDS from the most
+             recent one (0 = latest; visible = results of earlier ops of the block, block/function arguments,
+             enclosing blocks, and -- in a non-entry CFG block -- the entry block); if there is none a boundary
+             constant of that type is materialised.  So every recipe builds.
     bound  = {"c": int}  constant, clamped to a small range   |   {"r": ref, "m": int, "o": int}  (x & m) + o
     stmt   = {"op": "const", "t": T, "v": int}                     ints: value mod 2^w; floats: BIT PATTERN
            | {"op": <int binary>, "t": T, "a": ref, "b": ref, "safe": 0|1, "flags": ["nsw","nuw"]}
@@ -280,7 +281,7 @@ def _int(v, default=0):
 class _Builder:
     def __init__(self, recipe):
         self.recipe = recipe
-        self.ib = 64
+        self.ib = 32 if recipe.get("ib") == 32 else 64      # width used to normalise index constants
         self.externs = {}
         self.sigs = []          # (arg tys, ret tys) of built functions
         self.unreg = {}
@@ -315,11 +316,11 @@ class _Builder:
         if t.startswith("memref<"):
             c = ctx.scope.visible(t)
             if c:
-                return c[_int(idx) % len(c)]
+                return c[-1 - (_int(idx) % len(c))]
             return self.alloc(ctx, t, _int(idx))
         c = ctx.scope.visible(t)
         if c:
-            return c[_int(idx) % len(c)]
+            return c[-1 - (_int(idx) % len(c))]      # 0 = the most recent value: small refs build chains
         if _is_int(t):
             bs = boundary_ints(t, self.ib)
             return self.const(ctx, t, bs[_int(idx) % len(bs)])
@@ -686,24 +687,28 @@ class _Builder:
 
     # ---- affine ----------------------------------------------------------------------------
     def _aexpr(self, e, counts):
-        from xdsl.ir.affine import AffineExpr
+        # raw expression nodes: the AffineExpr operators simplify/fold (that is code under test elsewhere)
+        from xdsl.ir.affine import (AffineBinaryOpExpr, AffineBinaryOpKind, AffineConstantExpr, AffineDimExpr,
+                                    AffineSymExpr)
+        K = AffineBinaryOpKind
         if not (isinstance(e, (list, tuple)) and e and isinstance(e[0], str)):
             raise RecipeError(f"bad affine expression {e!r}")
         k = e[0]
         if k == "c":
-            return AffineExpr.constant(max(-64, min(64, _int(e[1] if len(e) > 1 else 0))))
+            return AffineConstantExpr(max(-64, min(64, _int(e[1] if len(e) > 1 else 0))))
         if k in ("d", "s"):
             i = _int(e[1] if len(e) > 1 else 0) % 2
             counts[k] = max(counts[k], i + 1)
-            return AffineExpr.dimension(i) if k == "d" else AffineExpr.symbol(i)
+            return AffineDimExpr(i) if k == "d" else AffineSymExpr(i)
         if k == "+" and len(e) == 3:
-            return self._aexpr(e[1], counts) + self._aexpr(e[2], counts)
+            return AffineBinaryOpExpr(K.Add, self._aexpr(e[1], counts), self._aexpr(e[2], counts))
         if k == "*" and len(e) == 3:
-            return self._aexpr(e[1], counts) * max(-8, min(8, _int(e[2])))
+            return AffineBinaryOpExpr(K.Mul, self._aexpr(e[1], counts),
+                                      AffineConstantExpr(max(-8, min(8, _int(e[2])))))
         if k in ("mod", "floordiv", "ceildiv") and len(e) == 3:
-            c = 1 + abs(_int(e[2])) % 8
-            x = self._aexpr(e[1], counts)
-            return x % c if k == "mod" else x.floor_div(c) if k == "floordiv" else x.ceil_div(c)
+            c = AffineConstantExpr(1 + abs(_int(e[2])) % 8)
+            kind = {"mod": K.Mod, "floordiv": K.FloorDiv, "ceildiv": K.CeilDiv}[k]
+            return AffineBinaryOpExpr(kind, self._aexpr(e[1], counts), c)
         raise RecipeError(f"bad affine expression {e!r}")
 
     def s_affine_apply(self, ctx, s, depth):
@@ -720,13 +725,13 @@ class _Builder:
     def _abound(self, ctx, bd, lo, hi):
         """([operands], AffineMapAttr) for a constant or a symbolic (identity on a clamped symbol) bound."""
         from xdsl.dialects import builtin as b
-        from xdsl.ir.affine import AffineExpr, AffineMap
+        from xdsl.ir.affine import AffineConstantExpr, AffineMap, AffineSymExpr
         if isinstance(bd, dict) and "r" in bd:
             v = self.bound(ctx, "index", bd, lo, hi)
-            return [v], b.AffineMapAttr(AffineMap(0, 1, (AffineExpr.symbol(0),)))
+            return [v], b.AffineMapAttr(AffineMap(0, 1, (AffineSymExpr(0),)))
         c = _int(bd.get("c")) if isinstance(bd, dict) else _int(bd)
         c = lo + (c - lo) % (hi - lo + 1)
-        return [], b.AffineMapAttr(AffineMap(0, 0, (AffineExpr.constant(c),)))
+        return [], b.AffineMapAttr(AffineMap(0, 0, (AffineConstantExpr(c),)))
 
     def s_affine_for(self, ctx, s, depth):
         from xdsl.dialects import affine
@@ -745,11 +750,14 @@ class _Builder:
     def s_affine_if(self, ctx, s, depth):
         from xdsl.dialects import affine, builtin as b
         from xdsl.ir import Region
-        from xdsl.ir.affine import AffineConstraintExpr, AffineConstraintKind, AffineExpr, AffineSet
+        from xdsl.ir.affine import (AffineBinaryOpExpr, AffineBinaryOpKind, AffineConstantExpr,
+                                    AffineConstraintExpr, AffineConstraintKind, AffineDimExpr, AffineSet)
         v = self.ref(ctx, "index", s.get("v"))
         c = max(-8, min(8, _int(s.get("c"))))
         kind = [AffineConstraintKind.ge, AffineConstraintKind.le, AffineConstraintKind.eq][_int(s.get("kind")) % 3]
-        cons = AffineConstraintExpr(kind, AffineExpr.dimension(0), AffineExpr.constant(c))
+        cons = AffineConstraintExpr(kind, AffineBinaryOpExpr(AffineBinaryOpKind.Add, AffineDimExpr(0),
+                                                             AffineConstantExpr(-c)),
+                                    AffineConstantExpr(0), canonicalize=False)
         tys = self._res_types(s)
 
         def fin(key):
@@ -765,10 +773,13 @@ class _Builder:
 
     def _amap(self, s, n):
         from xdsl.dialects import builtin as b
-        from xdsl.ir.affine import AffineExpr, AffineMap
+        from xdsl.ir.affine import (AffineBinaryOpExpr, AffineBinaryOpKind as K, AffineConstantExpr, AffineDimExpr,
+                                    AffineMap)
         k = max(-4, min(4, _int(s.get("k"), 1)))
         c = max(-8, min(8, _int(s.get("c"))))
-        return b.AffineMapAttr(AffineMap(1, 0, ((AffineExpr.dimension(0) * k + c) % n,)))
+        e = AffineBinaryOpExpr(K.Mul, AffineDimExpr(0), AffineConstantExpr(k))
+        e = AffineBinaryOpExpr(K.Add, e, AffineConstantExpr(c))
+        return b.AffineMapAttr(AffineMap(1, 0, (AffineBinaryOpExpr(K.Mod, e, AffineConstantExpr(n)),)))
 
     def s_affine_load(self, ctx, s, depth):
         from xdsl.dialects import affine
@@ -1081,7 +1092,7 @@ def _float_bits(t):
                      st.integers(0, (1 << w) - 1))
 
 
-_REF = st.integers(0, 11)
+_REF = st.one_of(st.integers(0, 3), st.integers(0, 11))      # biased to recent values
 
 
 def _bound(sym: bool):
@@ -1239,7 +1250,7 @@ def _stmt_levels(F):
         iters = st.lists(st.tuples(st.sampled_from(vt), _REF).map(list), max_size=2)
         refs = st.lists(_REF, max_size=2)
         ctl = []
-        if "i1" in F["int_types"] and _ctl_allowed(F, "scf_if", ["scf.if", "scf.yield"]):
+        if _ctl_allowed(F, "scf_if", ["scf.if", "scf.yield"]):
             ctl.append(st.builds(lambda c, r, th, ty, el, ey: {"op": "if", "c": c, "res": r, "then": th, "ty": ty,
                                                                 "else": el, "ey": ey},
                                  _REF, res, inner, refs, inner, refs))
@@ -1265,7 +1276,7 @@ def _stmt_levels(F):
                                                                       "ey": ey},
                                  _REF, st.integers(-4, 8), st.integers(0, 2), res, inner, refs, inner, refs))
         if ctl:
-            levels.append(st.one_of(levels[0], levels[0], st.one_of(ctl)))
+            levels.append(st.one_of(levels[0].map(_ident), levels[0].map(_ident), st.one_of(ctl).map(_ident)))
         else:
             levels.append(levels[0])
     return levels
@@ -1277,7 +1288,7 @@ def _terms(F, vt):
     opts = [st.just({"k": "ret"})]
     if wl is None or "cf.br" in wl:
         opts.append(st.builds(lambda to, a: {"k": "br", "to": to, "args": a}, st.integers(0, 3), refs))
-    if "i1" in F["int_types"] and (wl is None or "cf.cond_br" in wl):
+    if wl is None or "cf.cond_br" in wl:
         c = st.builds(lambda c, to, a, fto, fa: {"k": "cond", "c": c, "to": to, "args": a, "fto": fto, "fargs": fa},
                       _REF, st.integers(0, 3), refs, st.integers(0, 3), refs)
         opts += [c, c]
@@ -1292,11 +1303,27 @@ def _terms(F, vt):
 
 def program_recipes(features_=None, **overrides):
     """Strategy of program recipes for the sub-language selected by the feature dict / keyword overrides
-    (see DEFAULT_FEATURES; e.g. program_recipes(int_types=["i32"], float_types=[], control=["scf_for"]))."""
+    (see DEFAULT_FEATURES; e.g. program_recipes(int_types=["i32"], float_types=[], control=["scf_for"])).
+    Each program concentrates on 1..3 of the selected value types so that values chain into data flow."""
     F = features(features_, **overrides)
     vt = F["int_types"] + F["float_types"]
     if not vt:
         raise ValueError("progen: no value types selected")
+    if len(vt) <= 3:
+        return _programs(F)
+    cache: dict = {}
+
+    def sub(tys):
+        key = tuple(sorted(tys))
+        if key not in cache:
+            cache[key] = _programs(dict(F, int_types=[t for t in F["int_types"] if t in key],
+                                        float_types=[t for t in F["float_types"] if t in key]))
+        return cache[key]
+    return st.lists(st.sampled_from(vt), min_size=1, max_size=3, unique=True).flatmap(sub)
+
+
+def _programs(F):
+    vt = F["int_types"] + F["float_types"]
     levels = _stmt_levels(F)
     top = levels[-1]
     wl = F["op_names"]
@@ -1311,8 +1338,9 @@ def program_recipes(features_=None, **overrides):
         if F["internal_calls"] and ix > 0 and (wl is None or "func.call" in wl):
             callf = st.builds(lambda f, a: {"op": "callf", "f": f, "args": a}, st.integers(0, 3),
                               st.lists(_REF, max_size=3))
-            body = st.lists(st.one_of(top, top, top, callf), max_size=F["size"])
-        base = {"args": st.lists(st.sampled_from(arg_t), max_size=F["max_args"]),
+            body = st.lists(st.one_of(top.map(_ident), top.map(_ident), top.map(_ident), callf), max_size=F["size"])
+        base = {"args": st.lists(st.sampled_from(arg_t), min_size=1 if F["max_args"] else 0,
+                                 max_size=F["max_args"]),
                 "body": body,
                 "ret": st.lists(st.tuples(st.sampled_from(vt), _REF).map(list), min_size=1,
                                 max_size=max(1, F["max_rets"]))}
@@ -1333,4 +1361,4 @@ def program_recipes(features_=None, **overrides):
     funcs = nf.flatmap(lambda n: st.tuples(*[func(i) for i in range(n)]).map(list))
     inputs = st.lists(st.integers(0, (1 << 64) - 1), min_size=1,
                       max_size=max(1, F["n_inputs"] * max(1, F["max_args"])))
-    return st.fixed_dictionaries({"funcs": funcs, "inputs": inputs})
+    return st.fixed_dictionaries({"funcs": funcs, "inputs": inputs, "ib": st.just(32 if F["index_bits"] == 32 else 64)})
